@@ -38,6 +38,8 @@ def on_call(interp, name, f, args, kwargs):
     mo = Obj(None, {'__truth__': True}, label='match')
 
     def group(interp2, a, kw):
+        if len(a) > 1:
+            return TupleV([group(interp2, [x], kw) for x in a])
         n = a[0] if a else K(0)
         if not isinstance(n, K):
             interp2.inexact('group() with a non-constant index')
